@@ -143,8 +143,8 @@ func TestCheck(t *testing.T) {
 
 	// ---- (1) sequential: all operation sequences up to length L
 	alphabet := []op{
-		{Op: "set", K: "a", TTL: 1}, {Op: "set", K: "a", TTL: 3}, {Op: "set", K: "b", TTL: 2}, {Op: "set", K: "b", TTL: 1_000_000_000},
-		{Op: "get", K: "a"}, {Op: "get", K: "b"}, {Op: "delete", K: "a"},
+		{Op: "set", K: "a", TTL: 1}, {Op: "set", K: "a", TTL: 3}, {Op: "set", K: "", TTL: 2}, {Op: "set", K: "", TTL: 1_000_000_000}, // the second key is the EMPTY string
+		{Op: "get", K: "a"}, {Op: "get", K: ""}, {Op: "delete", K: "a"},
 		{Op: "cleanup"}, {Op: "reset"}, {Op: "advance", D: 1}, {Op: "advance", D: 2},
 		{Op: "advance", DT: 1}, // 0.1 s: the clock starts at xx.9 s, so this crosses a whole-second boundary
 	}
@@ -325,9 +325,26 @@ func TestCheck(t *testing.T) {
 	}
 	e.Sample(tv.M{"mode": "refresh-race", "trace": rb.TraceStrings(0)})
 
+	// ---- (2c) a large, mostly expired cache cleaned up while live probe keys are Set/Deleted during the Cleanup call
+	gb := &tv.Batch{}
+	for i := 0; i < ev.Pick(40, 600); i++ {
+		bigCleanup(gb, rng, e, i)
+	}
+	gmissing, gres := tv.ValidateDoneChunked(tlc.Opts{Dir: "TTLCache", Module: "TraceTTL", Config: "TraceTTL.cfg", Workers: 16, Timeout: ev.Pick(6*time.Minute, 40*time.Minute), HeapMB: 12000}, gb)
+	fmt.Printf("TLC big-cleanup validation: ok=%v traces=%d rejected=%d distinct=%d wall=%s %s\n", gres.OK, gb.Len(), len(gmissing), gres.Distinct, gres.Wall.Round(time.Millisecond), gres.What)
+	if !gres.OK {
+		e.Inconclusive("big-cleanup trace validation did not run: " + gres.What + gres.Tail(1500))
+		return
+	}
+	for _, i := range gmissing {
+		e.Violation(classifyConc(gb.TraceStrings(i)), "history around the Cleanup of a large, mostly expired cache has no linearization in TTLCache.tla", tv.M{"trace": gb.TraceStrings(i)})
+	}
+	e.Set("big_cleanup_histories", int64(gb.Len()))
+
 	// ---- (3) Stop vs a cleaner parked inside Cleanup
 	sb := &tv.Batch{}
 	stopScenarios(sb, e)
+	immediateStop(sb, e, ev.Pick(50, 500))
 	smissing, sres := tv.ValidateDoneChunked(tlc.Opts{Dir: "TTLCache", Module: "TraceTTL", Config: "TraceTTL.cfg", Workers: 2, Timeout: 3 * time.Minute}, sb)
 	if !sres.OK {
 		e.Inconclusive("stop trace validation did not run: " + sres.What)
@@ -341,7 +358,7 @@ func TestCheck(t *testing.T) {
 	e.Set("evaluations", int64(nSeq+cb.Len()+sb.Len()+rb.Len()+db.Len()))
 	e.Set("traces_validated_against_impl", int64(nSeq+cb.Len()+sb.Len()+rb.Len()+db.Len()))
 	e.Set("concurrent_histories_with_overlap", int64(overlaps))
-	e.Set("rule", "sequential: every sequence over a 12-letter alphabet (Set a ttl1/ttl3, Set b ttl2, Get a/b, Delete a, Cleanup, Reset, Advance 1s/2s/0.1s; the clock starts at xx.9 s) up to length L that starts with Set and ends with Get, for MaxTTL in {0,2}, plus every one-key sequence of length 6..7(8) over {Set a ttl1/ttl3, Get a, Cleanup, Advance 2s}, plus seeded random sequences of length 6-15; concurrent: 3 goroutines x 4 random ops with the periodic cleaner on, call/return order recorded under one mutex; stop: Stop raced against a cleaner parked inside Cleanup. non-trivial (sequential) = contains a Set and a Get; distinct by (MaxTTL, op sequence)")
+	e.Set("rule", "sequential: every sequence over a 12-letter alphabet (Set a ttl1/ttl3, Set <empty key> ttl2, Get a/<empty key>, Delete a, Cleanup, Reset, Advance 1s/2s/0.1s; the clock starts at xx.9 s) up to length L that starts with Set and ends with Get, for MaxTTL in {0,2}, plus every one-key sequence of length 6..7(8) over {Set a ttl1/ttl3, Get a, Cleanup, Advance 2s}, plus seeded random sequences of length 6-15; concurrent: 3 goroutines x 4 random ops with the periodic cleaner on, call/return order recorded under one mutex; big cleanup: thousands of filler entries, most expired, cleaned up while 6 live probe keys are Set/Deleted at instants spread over the Cleanup call; stop: Stop raced against a cleaner parked inside Cleanup, and Stop straight after NewCache on one P. non-trivial (sequential) = contains a Set and a Get; distinct by (MaxTTL, op sequence)")
 
 	selfTest(e)
 }
